@@ -12,7 +12,7 @@ ORACLE_RE = re.compile(r"^ORACLE (\S+) (\S+) (.*)$")
 DIFF_RE = re.compile(r"^DIFF plan=(\d+) line=(\d+) op=(\S+) field=(\S+) model=(.*) impl=(.*)$")
 
 # (profile, plans, ops per plan) of the quick tier; thorough multiplies the plan counts
-BOX_JOBS = [("general", 160, 40), ("convert", 120, 40), ("any", 60, 40), ("panics", 120, 40), ("deleg", 60, 40), ("zst", 80, 40)]
+BOX_JOBS = [("general", 800, 40), ("convert", 600, 40), ("any", 300, 40), ("panics", 600, 40), ("deleg", 300, 40), ("zst", 400, 40)]
 
 # oracle names that are about "dropped exactly once / never by a non-owner" (Box part of C15)
 LEDGER_ORACLES = {"double-drop", "dropped-while-reachable", "unexpected-drop", "drop-mismatch", "ledger-final", "moved-value-wrong",
